@@ -230,6 +230,12 @@ package table
 //@   safety off
 //@   loop 1
 //@     invariant [C13:data-area-ends-where-the-first-meta-block-starts] r.dataEnd == int64(r.metaBH.offset) || r.dataEnd == int64(r.filterBH.offset)
+//@   at before call decodeBlockHandle#1
+//@     assert [C13:footer-read-metaindex-handle-first] samebase(arg0, footer[:])
+//@   at call decodeBlockHandle#1
+//@     ghost gFooterN = ret1
+//@   at before call decodeBlockHandle#2
+//@     assert [C13:footer-read-index-handle-second] samebase(arg0, footer[gFooterN:])
 //@   guarantees [C13:data-area-ends-where-the-first-meta-block-starts] (ret1 == nil && ret0 != nil && ret0.err == nil) ==> (ret0.dataEnd == int64(ret0.metaBH.offset) || ret0.dataEnd == int64(ret0.filterBH.offset))
 //@   at before call filter.Filter.Name#1
 //@     ghost gNamed = recv
@@ -284,3 +290,33 @@ package table
 //@ func (*Reader).getFilterBlock
 //@   props C13 C08
 //@   trusted
+
+// C13 (file layout): closing a table writes, in this order, the filter block (if any), the metaindex block and the
+// index block, and then a footer that names the metaindex block first and the index block second; the metaindex
+// entry of the filter names the filter block. "The block written last / before last" is kept as ghost history of
+// writeBlock's results. The well-formedness of the writer's buffers that its callees require is assumed here
+// (assumepre: the representation invariant of table.Writer is not carried through Append / Close).
+//@ ghost var gLastOff uint64
+//@ ghost var gLastLen uint64
+//@ ghost var gPrevOff uint64
+//@ ghost var gPrevLen uint64
+//@ ghost var gFooterN int
+//@ func (*Writer).Close
+//@   props C13
+//@   safety off
+//@   assumepre
+//@   at call (*Writer).writeBlock#*
+//@     ghost gPrevOff = gLastOff
+//@     ghost gPrevLen = gLastLen
+//@     ghost gLastOff = ret0.offset
+//@     ghost gLastLen = ret0.length
+//@   at before call encodeBlockHandle#1
+//@     assert [C13:metaindex-names-the-filter-block-just-written] arg1.offset == gLastOff && arg1.length == gLastLen
+//@   at before call encodeBlockHandle#2
+//@     assert [C13:footer-names-the-metaindex-block-first] arg1.offset == gPrevOff && arg1.length == gPrevLen && samebase(arg0, footer)
+//@   at call encodeBlockHandle#2
+//@     ghost gFooterN = result
+//@   at before call encodeBlockHandle#3
+//@     assert [C13:footer-names-the-index-block-second] arg1.offset == gLastOff && arg1.length == gLastLen && samebase(arg0, footer[gFooterN:])
+//@   at before call io.Writer.Write#1
+//@     assert [C13:footer-is-written-whole] sameslice(arg0, footer) && len(footer) == footerLen
